@@ -34,8 +34,10 @@ pub enum Kind {
 #[derive(Clone, Copy, Debug, PartialEq, Eq)]
 pub enum Ret {
     One,
+    /// no return statement at all
     None,
-    Many,
+    /// a return statement with this many values, never exactly one: `return` (0), `return 1, 2` (2), …
+    Many(u8),
 }
 
 #[derive(Clone, Copy, Debug, PartialEq, Eq)]
@@ -692,7 +694,10 @@ fn render_lua(case: &Case, file_index: usize, resolver: &Resolver) -> (String, S
     }
     let tail = match ret {
         Ret::None => "emit(\"end\", _MOD)".to_owned(),
-        Ret::Many => "return 1, 2".to_owned(),
+        Ret::Many(n) => {
+            let values: Vec<String> = (1..=n).map(|v| v.to_string()).collect();
+            format!("return {}", values.join(", ")).trim_end().to_owned()
+        }
         Ret::One => match kind {
             Kind::Nil => "return nil".to_owned(),
             Kind::False => "return false".to_owned(),
@@ -754,7 +759,7 @@ pub fn render(case: &Case) -> Rendered {
                     out.shapes.push("parse-error".to_owned());
                 } else {
                     out.sites.push(sites);
-                    out.shapes.push(match ret { Ret::One => "lua:one", Ret::None => "lua:none", Ret::Many => "lua:many" }.to_owned());
+                    out.shapes.push(match ret { Ret::One => "lua:one", Ret::None => "lua:none", Ret::Many(_) => "lua:many" }.to_owned());
                 }
                 if i == 0 {
                     entry_ref = refr.clone();
@@ -940,7 +945,7 @@ pub fn gen_case(rng: &mut Rng, opts: &GenOptions, prefix_gen: &mut dyn FnMut(&mu
             items.insert(at, Item::ShadowHere);
         }
         let kind = *rng.pick(&[Kind::Nil, Kind::False, Kind::Num, Kind::Str, Kind::Tbl, Kind::Tbl, Kind::Fun, Kind::Fun]);
-        let ret = if i > 0 && opts.defects && rng.chance(1, 10) { if rng.chance(1, 2) { Ret::None } else { Ret::Many } } else { Ret::One };
+        let ret = if i > 0 && opts.defects && rng.chance(1, 10) { if rng.chance(1, 3) { Ret::None } else { Ret::Many(*rng.pick(&[0u8, 0, 2, 3])) } } else { Ret::One };
         let syntax_error = i > 0 && opts.defects && rng.chance(1, 12);
         let prefix = if rng.chance(1, 3) { prefix_gen(rng) } else { String::new() };
         files.push(FileSpec { path, kind: FileKind::Lua { prefix, items, ret, kind, syntax_error } });
@@ -1005,6 +1010,101 @@ pub fn self_twins(rng: &mut Rng) -> Case {
         files.push(FileSpec { path: "lib/shared.lua".to_owned(), kind: FileKind::Lua { prefix: String::new(), items: Vec::new(), ret: Ret::One, kind: Kind::Tbl, syntax_error: false } });
     }
     Case { mode: Mode::Luau, files, excludes: Vec::new(), modules_identifier: None, aliases }
+}
+
+/// Luau mode: ONE directory holding `init` and sibling modules that all write the SAME relative
+/// literal (`./util`, `../util`, `./lib/util` …). For the `init` file the literal is relative to
+/// the directory's parent, for its siblings to the directory itself, so the same (directory,
+/// literal) pair designates two different files — both exist and return different values. The
+/// order in which the entry reaches the requirers is random, and a second directory repeats the
+/// pattern so that (directory, literal) and (literal) alone are both wrong keys.
+pub fn init_siblings(rng: &mut Rng) -> Case {
+    let dirs_pool = ["src/p/x", "src/p/y", "lib/q/z", "src/w"];
+    let n_dirs = 1 + rng.below(2);
+    let mut dirs: Vec<&str> = dirs_pool.to_vec();
+    rng.shuffle(&mut dirs);
+    dirs.truncate(n_dirs);
+    let literal = *rng.pick(&["./util", "./util", "../util", "./lib/util", "./util.lua"]);
+    let init_name = if rng.chance(1, 2) { "init.lua" } else { "init.luau" };
+    let mut requirers: Vec<String> = Vec::new();
+    for d in &dirs {
+        requirers.push(format!("{}/{}", d, init_name));
+        requirers.push(format!("{}/mod.lua", d));
+        if rng.chance(1, 3) {
+            requirers.push(format!("{}/other.luau", d));
+        }
+    }
+    // every file the literal designates from some requirer must exist
+    let mut paths: Vec<String> = vec!["src/main.lua".to_owned()];
+    paths.extend(requirers.iter().cloned());
+    let probe = Resolver { mode: Mode::Luau, files: BTreeSet::new(), aliases: Vec::new(), project: "src".to_owned() };
+    let mut targets: Vec<String> = Vec::new();
+    for r in &requirers {
+        if let Err(wanted) = probe.resolve(r, literal) {
+            let file = if wanted.ends_with(".lua") { wanted } else { format!("{}.{}", wanted, if rng.chance(1, 2) { "lua" } else { "luau" }) };
+            if !targets.contains(&file) && !paths.contains(&file) {
+                targets.push(file);
+            }
+        }
+    }
+    // a `.lua` and a `.luau` spelling of one target would shadow each other: keep the first per stem
+    let mut seen_stems: BTreeSet<String> = BTreeSet::new();
+    targets.retain(|t| seen_stems.insert(t.rsplit_once('.').map(|x| x.0.to_owned()).unwrap_or_else(|| t.clone())));
+    paths.extend(targets.iter().cloned());
+    let resolver = Resolver { mode: Mode::Luau, files: paths.iter().cloned().collect(), aliases: Vec::new(), project: "src".to_owned() };
+    let mut entry_items: Vec<Item> = requirers
+        .iter()
+        .map(|r| Item::Site { literal: resolver.spell(rng, "src/main.lua", r), form: pick_form(rng), shadow_block: false })
+        .collect();
+    rng.shuffle(&mut entry_items);
+    let mut files = vec![FileSpec { path: "src/main.lua".to_owned(), kind: FileKind::Lua { prefix: String::new(), items: entry_items, ret: Ret::One, kind: Kind::Num, syntax_error: false } }];
+    for r in &requirers {
+        let mut items = vec![Item::Site { literal: literal.to_owned(), form: pick_form(rng), shadow_block: false }];
+        if rng.chance(1, 4) {
+            items.push(Item::Site { literal: literal.to_owned(), form: pick_form(rng), shadow_block: false });
+        }
+        let kind = *rng.pick(&[Kind::Tbl, Kind::Fun, Kind::Str, Kind::Num]);
+        files.push(FileSpec { path: r.clone(), kind: FileKind::Lua { prefix: String::new(), items, ret: Ret::One, kind, syntax_error: false } });
+    }
+    for t in &targets {
+        let kind = *rng.pick(&[Kind::Tbl, Kind::Fun, Kind::Str, Kind::Num, Kind::False, Kind::Nil]);
+        files.push(FileSpec { path: t.clone(), kind: FileKind::Lua { prefix: String::new(), items: Vec::new(), ret: Ret::One, kind, syntax_error: false } });
+    }
+    Case { mode: Mode::Luau, files, excludes: Vec::new(), modules_identifier: None, aliases: Vec::new() }
+}
+
+/// Enumerated: every shape of a module's final statement around the "exactly one value" rule —
+/// no return, `return` with 0, 2, 3 values — required directly or through a well-formed module,
+/// once or twice, in both modes; plus entries with those shapes (legal: the entry is not a module).
+pub fn return_shapes() -> Vec<Case> {
+    let mut cases = Vec::new();
+    let lua = |path: &str, items: Vec<Item>, ret: Ret, kind: Kind| FileSpec {
+        path: path.to_owned(),
+        kind: FileKind::Lua { prefix: String::new(), items, ret, kind, syntax_error: false },
+    };
+    let site = |literal: &str, form: Form| Item::Site { literal: literal.to_owned(), form, shadow_block: false };
+    for mode in [Mode::Path, Mode::Luau] {
+        for ret in [Ret::None, Ret::Many(0), Ret::Many(2), Ret::Many(3)] {
+            for via in [false, true] {
+                for twice in [false, true] {
+                    let mut entry_items = vec![site(if via { "./mid" } else { "./bad" }, Form::LocalParen)];
+                    if twice {
+                        entry_items.push(site("./bad.lua", Form::Arg));
+                    }
+                    let mut files = vec![lua("src/main.lua", entry_items, Ret::One, Kind::Num)];
+                    if via {
+                        files.push(lua("src/mid.lua", vec![site("./bad", Form::LocalString)], Ret::One, Kind::Tbl));
+                    }
+                    files.push(lua("src/bad.lua", Vec::new(), ret, Kind::Num));
+                    cases.push(Case { mode, files, excludes: Vec::new(), modules_identifier: None, aliases: Vec::new() });
+                }
+            }
+            // the same shape on the ENTRY is fine
+            let files = vec![lua("src/main.lua", vec![site("./ok", Form::LocalParen)], ret, Kind::Num), lua("src/ok.lua", Vec::new(), Ret::One, Kind::Str)];
+            cases.push(Case { mode, files, excludes: Vec::new(), modules_identifier: None, aliases: Vec::new() });
+        }
+    }
+    cases
 }
 
 /// structure-only graph on `n` nodes (node 0 = entry), edge i→j iff bit (i*n+j) of `mask`
